@@ -402,7 +402,7 @@ kvg = tuple(bspline.make_knots(2, 0.0, 1.0, 1) for _ in range(d))
 NG = tuple(kv.numdofs for kv in kvg)
 base = geometry.unit_cube(dim=d) if d > 1 else geometry.line_segment(0.0, 1.0)
 Cg = np.asarray(base.grid_eval([kv.greville() for kv in kvg])).reshape(NG + (d,)) + 0.07 * rng.rand(*(NG + (d,)))
-args = {'geo': bspline.BSplineFunc(kvg, Cg)}
+args = {'geo': bspline.BSplineFunc(kvg, Cg if d > 1 else Cg[..., 0])}       # (1D geometries are scalar-valued in pyiga)
 for inp in V.inputs:
     if inp.name == 'geo': continue
     shape = inp.shape if isinstance(inp.shape, tuple) else ((inp.shape,) if inp.shape else ())
@@ -424,6 +424,9 @@ try:
     for nm, f in args.items():
         if hasattr(f, 'grid_eval'):
             fld[nm] = (np.asarray(f.grid_eval(grid)), np.asarray(f.grid_jacobian(grid)), np.asarray(f.grid_hessian(grid)) if (np.isscalar(f.dim) and d > 0) else None)
+            if nm == 'geo' and d == 1:
+                n0 = len(grid[0]); v_, j_, h_ = fld[nm]
+                fld[nm] = (np.asarray(v_).reshape(n0, 1), np.asarray(j_).reshape(n0, 1, 1), None if h_ is None else np.asarray(h_).reshape(n0, 1, 1))
     bfs = V.basis_funs; arity = V.arity
     pairs2 = [(i, j) for i in range(d) for j in range(i, d)]
     def atom(name, node, funcs):
